@@ -79,7 +79,9 @@ impl Mesh1D<f64, f64> {
                 // ( right - left ) * t with t = delta_x / h reproduces the nodal values exactly ( t = 0 or 1 ),
                 // ( ( right - left ) / h ) * delta_x does not when h is not a power of two
                 let t = delta_x / ( self.nodes[ node + 1 ] - self.nodes[ node ] );
-                result = left.clone() + ( right - left ) * t;
+                // taken from the nearer end, so that t = 1 gives the right-hand value back even when right - left was rounded
+                result = if t < 0.5 { left.clone() + ( right - left ) * t }
+                         else { right.clone() - ( right - left ) * ( 1.0 - t ) };
             }
         }
         result
